@@ -30,9 +30,13 @@ const (
 	// every scheduler step costs stepTime of simulated time, so that code which polls with timers or tickers is woken
 	// while other actors keep computing; context deadlines lie deadlineBase further in the future, so that they expire
 	// only when the clock action of the fault plan (or the pre-deadlock sleep) says so
-	stepTime     = 50 * time.Microsecond
-	deadlineBase = 12 * time.Hour
-	fairRounds   = 600 // bounded liveness: Mine must return within this many fair rounds after cancellation
+	stepTime = 50 * time.Microsecond
+	// idleAfterCancelMax bounds the simulated time a cancelled call may spend with all of its goroutines asleep on timers
+	// (nothing runnable, nothing polling): "returns within a short bounded time". A poll interval or back-off of
+	// milliseconds to a few seconds stays far below it; it is only reached by code that waits out tens of seconds.
+	idleAfterCancelMax = 20 * time.Second
+	deadlineBase       = 12 * time.Hour
+	fairRounds         = 600 // bounded liveness: Mine must return within this many fair rounds after cancellation
 )
 
 type mineRet struct {
@@ -266,6 +270,7 @@ type world struct {
 	preCancelled    bool
 	forcedCancel    bool
 	simNs           int64
+	idleAfterCancel time.Duration
 	inconclusive    bool
 	verbose         bool
 	hadBatch        map[int]bool
@@ -466,6 +471,7 @@ func (w *world) simulate(choices []int) {
 	graceLeft := -1 // steps left under the run's strategy after the cancellation; -1: not started
 	fair := false   // fair (round-robin) phase
 	wraps := 0      // completed fair rounds since the fair phase began
+	hangJumped := false
 	censusDone := false
 	timersTried := false
 	censusSleeps := 0
@@ -578,14 +584,44 @@ func (w *world) simulate(choices []int) {
 			// case something is sleeping on a timer (the code under test has none today; a context deadline that
 			// has not been fired yet expires here too, which is what would happen in real time)
 			timersTried = true
-			before := time.Now()
-			kernel.HiddenSleep(48 * time.Hour)
-			w.simNs += int64(time.Since(before))
+			// The clock runs in growing slices, and stops as soon as somebody has woken: the simulated time that passes
+			// here AFTER the cancellation was delivered is time in which every goroutine of the call did nothing but
+			// wait for a timer - the cancellation had been delivered and nobody was even looking (idleAfterCancel).
+			woke := false
+			idle := time.Duration(0)
+			nParked := len(k.Parked()) // a held-back canceller may be parked all along
+			for _, d := range idleSlices {
+				before := time.Now()
+				kernel.HiddenSleep(d)
+				k.Quiesce()
+				el := time.Since(before)
+				w.simNs += int64(el)
+				if w.cancelDelivered {
+					idle += el
+				}
+				if hasDeadline && !w.clockFired && time.Since(start) > deadlineBase+time.Duration(cfg.Fault.DeadlineMs)*time.Millisecond {
+					w.clockFired = true
+					w.delivered("deadline_expiry")
+				}
+				if len(k.Parked()) != nParked || len(resCh) > 0 {
+					woke = true
+					break
+				}
+			}
 			if hasDeadline && !w.clockFired {
 				w.clockFired = true
 				w.delivered("deadline_expiry")
 			}
+			if woke {
+				// (if nobody ever woke, nobody was waiting for a timer: that is a deadlock, decided below)
+				w.probes["woken_by_a_timer"] = 1
+				w.idleAfterCancel += idle
+			}
 			w.probes["clock_ran_before_deadlock_verdict"] = 1
+			if w.idleAfterCancel > idleAfterCancelMax {
+				w.violate("slow-after-cancel", fmt.Sprintf("after the cancellation was delivered at step %d every goroutine of the call sat on timers for %v of simulated time in total, with nothing else to run, before Mine returned (if it has): that is not \"a short bounded time\"", w.cancelStep, w.idleAfterCancel), nil)
+				break
+			}
 			continue
 		}
 		if len(en) == 0 {
@@ -660,6 +696,19 @@ func (w *world) simulate(choices []int) {
 			if k.Wrapped() {
 				wraps++
 			}
+			if wraps > fairRounds+cfg.Fault.Grace && !hangJumped {
+				// rounds are not time: code that honours the cancellation after a short pause on a timer (a debounce, a
+				// poll interval) may sit through any number of rounds while other goroutines keep stepping at 50 us each.
+				// Before the verdict the clock is moved by the same allowance as in the idle case, once, and the rounds
+				// start again.
+				hangJumped = true
+				wraps = 0
+				before := time.Now()
+				kernel.HiddenSleep(idleAfterCancelMax)
+				k.Quiesce()
+				w.simNs += int64(time.Since(before))
+				w.probes["clock_moved_before_hang_verdict"] = 1
+			}
 			if wraps > fairRounds+cfg.Fault.Grace {
 				w.violate("hang-after-cancel", fmt.Sprintf("Mine did not return within %d fair rounds after the cancellation was delivered at step %d", fairRounds, w.cancelStep), nil)
 				break
@@ -724,6 +773,10 @@ func (w *world) simulate(choices []int) {
 	}
 	w.sampleTrace()
 }
+
+// idleSlices: how the clock is let run when nothing is enabled (sums to a little more than two days).
+var idleSlices = []time.Duration{time.Millisecond, 9 * time.Millisecond, 90 * time.Millisecond, 900 * time.Millisecond,
+	4 * time.Second, 5 * time.Second, 20 * time.Second, 30 * time.Second, 9 * time.Minute, 50 * time.Minute, 47 * time.Hour}
 
 // onlyHeld reports whether nothing but a held-back canceller remains parked.
 func onlyHeld(en, parked []kernel.Enabled) bool {
